@@ -231,6 +231,15 @@ extern "C" void harness(void)
   t = false; try { m.f(5); } catch (vf_reported &) { t = true; }
   VCLAIM(7, t && vf_nreports == 2 && vf_last.fatal && (vf_last.mask & wforb) && vf_last.line == 470, "C07.forbidden_again_when_first_in_line");
   VCLAIM(7, effects == 0 && vf_nok == 1, "C07.nothing_runs_second_time");
+#elif VF_SCENE == 16   /* a mock that is destroyed from inside the side effect of the call that saturates a NAMED expectation */
+  auto *pm = new M;
+#line 480
+  auto e = NAMED_REQUIRE_CALL(*pm, f(ANY(int))).LR_SIDE_EFFECT(delete pm).LR_SIDE_EFFECT(++effects).RETURN(rv);
+  int r = pm->f(x);
+  VCLAIM(14, r == rv && effects == 1 && vf_nreports == 0, "C14.call_that_destroys_its_own_mock_completes");
+  VCLAIM(14, !e->is_linked() && e->is_saturated() && e->is_satisfied(), "C14.expectation_detached_from_the_dead_mock_and_counted");
+  e.reset();
+  VCLAIM(14, vf_nreports == 0, "C14.release_after_the_mock_died_is_silent");
 #elif VF_SCENE == 12   /* multiplicity written BEFORE IN_SEQUENCE: the limits survive the switch to a sequenced handler, also for L == 1 */
   M m;
   trompeloeil::sequence s1, s2;
